@@ -312,7 +312,14 @@ func parseGuard(src string) (m *ir.Module, oc outcome, msg string) {
 }
 
 // the known-finding class of an identity failure: %a = type %b (KF-11)
-func c04Class(src string) string {
+func c04Class(src string, bad []string) string {
+	// the finding is that the alias is listed as a second definition under the name of its target, and nothing
+	// else: a use that holds an unlisted object, or any other failure, in a module with an alias is not it
+	for _, b := range bad {
+		if !strings.HasPrefix(b, "two type  definitions are listed under the name") {
+			return ""
+		}
+	}
 	for _, l := range strings.Split(src, "\n") {
 		f := strings.Fields(l)
 		if len(f) == 4 && f[1] == "=" && f[2] == "type" && strings.HasPrefix(f[3], "%") && strings.HasPrefix(f[0], "%") {
@@ -339,7 +346,7 @@ func c04Check(c *config, src, label string, sample bool) {
 		o.Sample(map[string]interface{}{"module_prefix": src[:min(400, len(src))], "references": rep.refs})
 	}
 	if len(rep.bad) > 0 {
-		o.Fail("reference_identity", c04Class(src), rep.bad[0], map[string]interface{}{"src": src, "all": rep.bad})
+		o.Fail("reference_identity", c04Class(src, rep.bad), rep.bad[0], map[string]interface{}{"src": src, "all": rep.bad})
 		return
 	}
 	o.Pass("reference_identity")
@@ -373,6 +380,41 @@ func runC04(c *config) {
 	rb := newRng(c.seed, "c04-binding")
 	for i := 0; i < 300*c.scale; i++ {
 		c08Module(c, rb, false)
+	}
+	// type aliases used inside other type bodies (pointer, array and struct positions), parsed several times: the
+	// order in which the definitions are translated is a Go map order, and every use must be the object the
+	// module lists whatever that order was
+	ra := newRng(c.seed, "c04-alias")
+	for i := 0; i < 25*c.scale; i++ {
+		var sb strings.Builder
+		nt := 2 + ra.intn(4)
+		na := 1 + ra.intn(3)
+		for t := 0; t < nt; t++ {
+			// the target of an alias may refer back to the alias
+			if ra.intn(2) == 0 {
+				fmt.Fprintf(&sb, "%%s%d = type { i%d, %%al%d* }\n", t, 8*(1+t%4), ra.intn(na))
+			} else {
+				fmt.Fprintf(&sb, "%%s%d = type { i%d, %%s%d* }\n", t, 8*(1+t%4), ra.intn(nt))
+			}
+		}
+		for a := 0; a < na; a++ {
+			fmt.Fprintf(&sb, "%%al%d = type %%s%d\n", a, ra.intn(nt))
+		}
+		for u := 0; u < 2+ra.intn(6); u++ {
+			a := ra.intn(na)
+			switch ra.intn(3) {
+			case 0:
+				fmt.Fprintf(&sb, "%%u%d = type { %%al%d*, i32 }\n", u, a)
+			case 1:
+				fmt.Fprintf(&sb, "%%u%d = type { [3 x %%al%d], %%al%d* }\n", u, a, a)
+			default:
+				fmt.Fprintf(&sb, "%%u%d = type { void (%%al%d*)*, %%al%d }\n", u, a, a)
+			}
+			fmt.Fprintf(&sb, "@gu%d = external global %%u%d\n", u, u)
+		}
+		for rep := 0; rep < 6; rep++ {
+			c04Check(c, sb.String(), "alias_uses", false)
+		}
 	}
 	// hand-written patterns of the quantifier: recursive types, type aliases, blockaddress across functions
 	for _, src := range []string{
@@ -578,6 +620,33 @@ func runC05(c *config) {
 		_, oc, _ := parseGuard(h.src)
 		o.Case("skeleton", []string{h.sk}, []string{oc.String()})
 	}
+	// a second definition of another kind: a definition with a body followed by an opaque one, by an alias, or by a
+	// different body is a duplicate like any other (only "opaque first" is the listed defect KF-24)
+	bodies := []struct{ text, kind string }{
+		{"{ i32, i8 }", "plain"}, {"<{ i8 }>", "plain"}, {"[4 x i32]", "plain"}, {"i32", "plain"}, {"i8*", "plain"},
+		{"void (i32)", "plain"}, {"<4 x float>", "plain"}, {"%other", "alias:%other"}, {"opaque", "opaque"},
+	}
+	for i, b1 := range bodies {
+		for j, b2 := range bodies {
+			if b1.kind == "opaque" {
+				continue
+			}
+			src := fmt.Sprintf("%%other = type { i64 }\n%%T = type %s\n@g%d = external global i32\n%%T = type %s\n@u = external global %%T*\n", b1.text, i*10+j, b2.text)
+			sk := fmt.Sprintf("type|%%other|plain|||;type|%%T|%s|||;global|@g%d||||;type|%%T|%s|||;global|@u||type=%%T||", b1.kind, i*10+j, b2.kind)
+			_, oc, msg := parseGuard(src)
+			o.Case("skeleton", []string{sk}, []string{oc.String()})
+			o.Stat("fault.duplicate.type_other_kind")
+			det := map[string]interface{}{"fault": "type %T defined as " + b1.text + " and again as " + b2.text, "src": src, "msg": msg}
+			switch oc {
+			case ocOk:
+				o.Fail("undefined_or_duplicate", "", "duplicate type accepted", det)
+			case ocPanic:
+				o.Fail("undefined_or_duplicate", "", "duplicate type crashes the parser", det)
+			default:
+				o.Pass("duplicate_is_error")
+			}
+		}
+	}
 	// hand-written faults with a known outcome; the listed defects carry their class
 	type hw struct{ src, class, want string }
 	for _, h := range []hw{
@@ -695,6 +764,36 @@ func runC12(c *config) {
 			for a := 0; a < na; a++ {
 				fmt.Fprintf(&sb, "@g%d = external global %%al%d\n", a, a)
 			}
+			inputs = append(inputs, sb.String())
+		}
+	}
+	// globals and functions in a non-zero address space, used by the initialisers and bodies of other entities
+	// through constant expressions whose type is computed from the type of the operand: in which order the
+	// entities are translated is a Go map order
+	{
+		rs := newRng(c.seed, "c12-addrspace")
+		for i := 0; i < 10*c.scale; i++ {
+			var sb strings.Builder
+			ng := 2 + rs.intn(5)
+			sp := make([]int, ng)
+			for g := 0; g < ng; g++ {
+				sp[g] = 1 + rs.intn(7)
+				fmt.Fprintf(&sb, "@lds%d = addrspace(%d) global [4 x i32] zeroinitializer\n", g, sp[g])
+			}
+			for u := 0; u < 3+rs.intn(8); u++ {
+				g := rs.intn(ng)
+				switch rs.intn(4) {
+				case 0:
+					fmt.Fprintf(&sb, "@p%d = global i32 addrspace(%d)* getelementptr inbounds ([4 x i32], [4 x i32] addrspace(%d)* @lds%d, i32 0, i32 %d)\n", u, sp[g], sp[g], g, rs.intn(4))
+				case 1:
+					fmt.Fprintf(&sb, "@p%d = global [4 x i32] addrspace(%d)* select (i1 true, [4 x i32] addrspace(%d)* @lds%d, [4 x i32] addrspace(%d)* null)\n", u, sp[g], sp[g], g, sp[g])
+				case 2:
+					fmt.Fprintf(&sb, "@p%d = global i8 addrspace(%d)* bitcast ([4 x i32] addrspace(%d)* @lds%d to i8 addrspace(%d)*)\n", u, sp[g], sp[g], g, sp[g])
+				default:
+					fmt.Fprintf(&sb, "define i32 @p%d() {\n\t%%v = load i32, i32 addrspace(%d)* getelementptr inbounds ([4 x i32], [4 x i32] addrspace(%d)* @lds%d, i32 0, i32 %d)\n\tret i32 %%v\n}\n", u, sp[g], sp[g], g, rs.intn(4))
+				}
+			}
+			fmt.Fprintf(&sb, "define void @fn() addrspace(5) {\n\tret void\n}\n@fp = global void () addrspace(5)* @fn\n@fq = global i8 addrspace(5)* bitcast (void () addrspace(5)* @fn to i8 addrspace(5)*)\n")
 			inputs = append(inputs, sb.String())
 		}
 	}
